@@ -1,7 +1,7 @@
 (* C01 — SSDP messages survive the wire and decode independently of history.  Property theorems only. *)
 From Coq Require Import List Bool NArith ZArith Permutation.
 From AUC Require Import Prelude.PyStr Prelude.PyDict Prelude.Utf8 C16.Model C16.Indep C03.Model
-  C01.Model C01.Spec C01.Wire C01.Roundtrip C01.Run C01.Clause C01.Fresh.
+  C01.Model C01.Spec C01.Wire C01.Roundtrip C01.Run C01.Clause C01.Fresh C01.Adjust.
 Import ListNotations.
 Local Open Scope N_scope.
 
@@ -25,6 +25,18 @@ Proof.
   apply decode_built; [exact Hs | now apply headers_ok_dom].
 Qed.
 Print Assumptions C01_roundtrip_partial.
+
+(* "the same header names and values": the one value the receiver may hand on changed is LOCATION, and only when
+   the sender's address carries a non-zero scope id and the location's host is (by the ip_address oracle) an IPv6
+   link-local address - never an IPv4 host, a name, or anything from an unscoped sender (D38: before the repair an
+   IPv4 link-local LOCATION from a scoped sender came out as http://[169.254.1.1%3]/...). *)
+Theorem C01_location_kept :
+  forall (url_of : pystr -> url_info) url a,
+    adjusted_url url_of url a <> url ->
+    u_link_local (url_of url) = Some true /\
+    exists flow scope, a_v6 a = Some (flow, scope) /\ scope <> 0.
+Proof. exact adjusted_changes_only. Qed.
+Print Assumptions C01_location_kept.
 
 (* the full statement (without the guard) is false of the faithful model: D27 *)
 Theorem C01_roundtrip_refuted :
